@@ -40,31 +40,34 @@ structure MinIntChoice where
   rmHi : Bool
 deriving DecidableEq, Repr, Inhabited
 
+/-- the four-way `switch` of `adjustForSignedBounds` once both bounds are present, on the rounded values -/
+def signedChoice (minR maxR : Int) : MinIntChoice :=
+  if minR < IntKind.i32.lo ∨ maxR > IntKind.i32.hi then ⟨.i64, minR == IntKind.i64.lo, maxR == IntKind.i64.hiCmp⟩
+  else if minR < IntKind.i16.lo ∨ maxR > IntKind.i16.hi then ⟨.i32, minR == IntKind.i32.lo, maxR == IntKind.i32.hi⟩
+  else if minR < IntKind.i8.lo ∨ maxR > IntKind.i8.hi then ⟨.i16, minR == IntKind.i16.lo, maxR == IntKind.i16.hi⟩
+  else ⟨.i8, minR == IntKind.i8.lo, maxR == IntKind.i8.hi⟩
+
 /-- `adjustForSignedBounds` -/
 def adjustSigned (nMin nMax : Option Rat) : MinIntChoice :=
-  let minR : Int := match nMin with | some m => roundRat m | none => 0
-  let maxR : Int := match nMax with | some m => roundRat m | none => 0
   match nMin, nMax with
   | none, none => ⟨.i64, false, false⟩
-  | none, some _ => ⟨.i64, false, maxR == IntKind.i64.hiCmp⟩
-  | some _, none => ⟨.i64, minR == IntKind.i64.lo, false⟩
-  | some _, some _ =>
-    if minR < IntKind.i32.lo ∨ maxR > IntKind.i32.hi then ⟨.i64, minR == IntKind.i64.lo, maxR == IntKind.i64.hiCmp⟩
-    else if minR < IntKind.i16.lo ∨ maxR > IntKind.i16.hi then ⟨.i32, minR == IntKind.i32.lo, maxR == IntKind.i32.hi⟩
-    else if minR < IntKind.i8.lo ∨ maxR > IntKind.i8.hi then ⟨.i16, minR == IntKind.i16.lo, maxR == IntKind.i16.hi⟩
-    else ⟨.i8, minR == IntKind.i8.lo, maxR == IntKind.i8.hi⟩
+  | none, some mx => ⟨.i64, false, roundRat mx == IntKind.i64.hiCmp⟩
+  | some mn, none => ⟨.i64, roundRat mn == IntKind.i64.lo, false⟩
+  | some mn, some mx => signedChoice (roundRat mn) (roundRat mx)
+
+/-- the `switch` of `adjustForUnsignedBounds` with a maximum present, on the rounded value -/
+def unsignedChoice (removeMin : Bool) (maxR : Int) : MinIntChoice :=
+  if maxR > IntKind.u32.hi then ⟨.u64, removeMin, maxR == IntKind.u64.hiCmp⟩
+  else if maxR > IntKind.u16.hi then ⟨.u32, removeMin, maxR == IntKind.u32.hi⟩
+  else if maxR > IntKind.u8.hi then ⟨.u16, removeMin, maxR == IntKind.u16.hi⟩
+  else ⟨.u8, removeMin, maxR == IntKind.u8.hi⟩
 
 /-- `adjustForUnsignedBounds` (only called with `nMin ≥ 0`) -/
 def adjustUnsigned (nMin nMax : Option Rat) : MinIntChoice :=
   let removeMin : Bool := match nMin with | some m => m == 0 | none => false
   match nMax with
   | none => ⟨.u64, removeMin, false⟩
-  | some m =>
-    let maxR := roundRat m
-    if maxR > IntKind.u32.hi then ⟨.u64, removeMin, maxR == IntKind.u64.hiCmp⟩
-    else if maxR > IntKind.u16.hi then ⟨.u32, removeMin, maxR == IntKind.u32.hi⟩
-    else if maxR > IntKind.u8.hi then ⟨.u16, removeMin, maxR == IntKind.u16.hi⟩
-    else ⟨.u8, removeMin, maxR == IntKind.u8.hi⟩
+  | some m => unsignedChoice removeMin (roundRat m)
 
 /-- `getMinIntType` -/
 def getMinIntType (lo hi : Option Rat) (xlo xhi : XB) : MinIntChoice :=
